@@ -75,3 +75,8 @@ def same(a, b):
     if isinstance(a, (list, dict, set)) or hasattr(a, '__dict__'):
         return a is b
     return a == b
+
+
+def setsum(s, weight):
+    """sum of weight(x) over the members of the set-like s (a dict = its keys)"""
+    return sum(weight(x) for x in s)
